@@ -302,12 +302,12 @@ def load_rdscript(path) :
     f.close()
     return rdscript_from_dict(d, base_path=filepath.get_base_path(path))
 
-def save_rdscript(script) :
+def save_rdscript(script, path) :
     """
     Saves a RDScript object as a JSON file.
     """
     
     d = rdscript_to_dict(script)
     f = open(path, "w", encoding="utf-8")
-    json.dumps(d, f, indent = 4)
+    json.dump(d, f, indent = 4)
     f.close()
